@@ -56,7 +56,7 @@ PROPS = {
         "floors": {"quick": {"teid_concurrent_histories": 1000, "fseid_establishments": 150, "chosen_teids_observed": 150}, "thorough": {"teid_concurrent_histories": 50000}},
     },
     "C12": {
-        "test": "TestVerif_C12", "level": "fault_enumeration",
+        "owns_races": True, "test": "TestVerif_C12", "level": "fault_enumeration",
         "rule": "fault enumeration with a scripted lossy peer: for N in {1,2,3} answer exactly the k-th transmission (k=1..N+1) or none, on the heartbeat path and on the agent-initiated association path (cpiface.peers); late / duplicated / wrong-sequence / wrong-type responses; peer heartbeats before and after association (constant Recovery Time Stamp, postponement of the agent's own heartbeat); 4 feature configurations x {datapath up, down} x both datapaths; BESS server stop/start around association attempts and UP4 never connected; distinct = <scenario kind, N, k, variant>",
         "shards": {"quick": 16, "thorough": 16}, "timeout": {"quick": 600, "thorough": 8000},
         "floors": {"quick": {"agent_request_transmissions_observed": 30, "feature_sets_checked": 6, "updown_states_checked": 3}, "thorough": {"agent_request_transmissions_observed": 800}},
@@ -119,7 +119,7 @@ PROPS = {
         "test": "TestVerif_C10", "level": "exploration",
         "rule": "scenario = {0..n associations (some >100)} x {0-3 sessions} x trigger per association {release, silence->read timeout(+heartbeat failure), unanswered heartbeats, live} x requests in flight x datapath reply delay x PFCPIface.Stop() at a drawn offset (+-3.5 ms around the coinciding triggers), fresh agent per scenario, plus a 'refresh' family (association ends without Stop, same address:port associates afresh, bystander association checked); distinct = distinct interleaving signatures (datapath, heartbeat on/off, delay, stop offset in ms, multiset of per-association <trigger, order relative to Stop, release answered?, sessions>)",
         "shards": {"quick": 12, "thorough": 16}, "timeout": {"quick": 800, "thorough": 12000},
-        "owns_races": False,
+        "owns_races": True,
         "floors": {"quick": {"associations": 100, "sessions": 50}, "thorough": {"associations": 1000, "sessions": 500}},
     },
     "SMOKE": {
@@ -166,7 +166,7 @@ MANIFEST_TEXT = {
         "note": "Not reached: exhaustion of the 2^32 TEID space. The scripted source is installed under the association's own handler lock.",
     },
     "C12": {
-        "technique": "runtime monitoring with fault enumeration: scripted lossy PFCP peer (answer the k-th transmission / none; late, duplicate, wrong-sequence, wrong-type responses), transmission counting and one-sided timing bounds, datapath server stop/start",
+        "technique": "runtime monitoring with fault enumeration: scripted lossy PFCP peer (answer the k-th transmission / none; late, duplicate, wrong-sequence, wrong-type responses), transmission counting and one-sided timing bounds, datapath server stop/start, repeated association setups; race detector owned for this workload",
         "text": "Every loss position k=1..N+1 (and none) for N in {1,2,3} on both agent-originated request paths, plus odd responses, peer heartbeats before/after association, 4 feature configurations x datapath up/down, and up/down/up transitions of the BESS server; counting and sequence equality are exact, timing rules one-sided with 50% slack.",
         "note": "resp_timeout >= 200 ms; up/down judged only in stable states with the listener's transport count as ground truth.",
     },
@@ -178,7 +178,7 @@ MANIFEST_TEXT = {
     "C14": {
         "technique": "runtime monitoring: packets captured at the harness end-marker socket / PacketOut, decoded with gopacket, ordered against datapath commands by a shared logical clock, sentinel update for completeness; injected write failures on UP4",
         "text": "Histories of FAR updates with/without the send-end-marker flag on sessions with arbitrary earlier tunnels; each emitted packet must be a GTP-U End Marker to the previous tunnel (old peer, old TEID, port 2152, N3 source), exactly one per flagged existing FAR, after the new FAR was programmed, none for unflagged, unknown, failed updates and creations.",
-        "note": "The flag is only generated on FARs that forwarded into a tunnel before the update.",
+        "note": "The flag is only generated on FARs that forwarded into a tunnel before the update; markers are matched to previous tunnels as multisets; other bits of the flags octet are set at random.",
     },
     "C16": {
         "technique": "runtime monitoring: every P4Runtime write validated online against the shipped P4Info by the harness server; the real generator binary executed repeatedly and its output byte-compared",
@@ -188,12 +188,12 @@ MANIFEST_TEXT = {
     "C01": {
         "technique": "runtime monitoring: structured fuzzing of the live agent over UDP with liveness / heartbeat-barrier / reply-count monitors, race detector on",
         "text": "Executions of the real agent (in-process, -race) under IE-level mutation of every dispatched message type in five protocol states on four agent configurations; the oracle is process liveness (a dead child is attributed to the journalled datagram), an answered heartbeat barrier after every datagram (wedge = handler parked in repository code in the goroutine dump), at most one reply per datagram, and a valid establishment+deletion on the same and on another association afterwards. Held = no violating execution among the ones produced; nothing is claimed about datagrams not generated.",
-        "note": "Trusted: go-pfcp as decoder in the harness (distinct counting only), loopback FIFO delivery, the harness-owned datapath servers. A watchdog expiry without a parked handler is inconclusive.",
+        "note": "Also: runs of 101-180 valid heartbeats, non-UTF-8 text in text-carrying IEs, port-edge flow descriptions, and a family in which a configured peer answers the agent's own requests with mutated responses. A mute association (valid requests unanswered for > 10 s, no parked handler) is a violation (C01.R5). Trusted: go-pfcp as decoder in the harness (distinct counting only), loopback FIFO delivery, the harness-owned datapath servers. A watchdog expiry without a parked handler is inconclusive.",
     },
     "C02": {
-        "technique": "runtime monitoring: history-based response checker at the PFCP socket (exact counting between heartbeat barriers)",
+        "technique": "runtime monitoring: history-based response checker at the PFCP socket (exact counting between heartbeat barriers); runs of 100-220 heartbeats and multi-kilobyte requests",
         "text": "Random accepted/rejected request histories over several associations and sessions on both datapaths; every datagram received between two heartbeat barriers is decoded and compared field by field (type, sequence, header SEID, cause, Node ID, UP F-SEID, Created PDR count). Exploration: held on the histories produced.",
-        "note": "Assumes loopback in-order delivery; barrier sequence range 0x700000-0x7FFFFF reserved; rejections of known sessions are disambiguated by an in-package read of the session store at a quiescent point.",
+        "note": "Three agent variants (BESS, UP4, BESS with a configured Node ID), PDI IEs in random order in half of the histories, CHOOSE F-TEIDs on core-side PDRs. Assumes loopback in-order delivery; barrier sequence range 0x700000-0x7FFFFF reserved; rejections of known sessions are disambiguated by an in-package read of the session store at a quiescent point.",
     },
     "C03": {
         "technique": "runtime monitoring: reference-model monitor comparing the harness BESS server's tables with the image of the control plane's rules after every accepted request; in-process crash-point simulation",
@@ -206,9 +206,9 @@ MANIFEST_TEXT = {
         "note": "porcupine v1.3.0 trusted; checker timeout is inconclusive; a concurrent history counts as non-trivial only if its operations overlapped in the recorded stamps.",
     },
     "C10": {
-        "technique": "runtime monitoring: stress of teardown interleavings (timing-randomised triggers, delayed datapath) with delete-exactly-once counting at the datapath server and goroutine-dump wedge detection",
+        "technique": "runtime monitoring: stress of teardown interleavings (timing-randomised triggers, delayed datapath, peer crash with requests in flight, idle REST connection at Stop) with delete-exactly-once counting at the datapath server, goroutine-dump wedge detection, and the race detector (owned: any repository race in this workload fails the check)",
         "text": "Hundreds to thousands of scenarios per run make Association Release, read timeout, heartbeat failure and PFCPIface.Stop() coincide within milliseconds with requests in flight and a slow datapath; monitors: process liveness, Stop() returning (a parked teardown goroutine in the dump is the wedge witness), every session's rules deleted exactly once at the harness datapath, fresh association from the same address:port accepted, bystander association intact. Schedule exploration only: held on the interleavings produced (signatures counted in evidence).",
-        "note": "Timing is used to aim interleavings, never as a verdict; watchdog expiry without witness is inconclusive.",
+        "note": "Timing is used to aim interleavings, never as a verdict; watchdog expiry without witness is inconclusive. Damage to a bystander association and an association outliving 100 read timeouts of silence are reported only when they reproduce in three consecutive runs of the scenario (millisecond timeouts on a loaded machine).",
     },
     "C17": {
         "technique": "runtime monitoring of a pure function: algebraic set-equality oracle; thorough tier enumerates all 2^32 inputs",
